@@ -176,6 +176,9 @@ def run(tier: str) -> int:
     for t in gen.alias_trees(rng, ck.budget(300, 4000)):
         cases.append(("tag", t, rng.choice([0, 1]), "\n"))
     ck.exhaustive_scopes.append({"scope": "aliasing stream: one string as HTML(), text, _repr_html_ and attribute values in one tree, lengths " + str(gen.ALIAS_LENGTHS), "exhaustive": False})
+    cases += gen.boundary_cases(rng)
+    ck.exhaustive_scopes.append({"scope": "width stream: fan-out / attribute count in " + str(gen.WIDTHS) + " x 5 child kinds x 3 parents; text lengths "
+                                          + str(gen.ALIAS_LENGTHS) + "; case variants / near misses of void and no-escape names", "exhaustive": True})
     subst.check_cases(ck, cases, {"r", "h"}, "trusted markup must be emitted byte for byte", direct=direct_verbatim)
     n_paths = every_path(ck, rng)
     ck.extra_cov["extra_evaluations"] = len(cases) + n_paths
